@@ -115,7 +115,12 @@ pub fn create_path(path: &str, free_fn: bool, bufsize: Option<usize>, then: impl
 /// the same through `create_with` on a cursor
 pub fn create_bytes(bufsize: Option<usize>, then: impl FnOnce(&mut cfb::CompoundFile<std::io::Cursor<Vec<u8>>>) -> std::io::Result<()>) -> Result<Vec<u8>, Res> {
     guarded(|| {
-        let mut cf = options(false, bufsize).create_with(std::io::Cursor::new(Vec::new())).map_err(io_err)?;
+        let cur = std::io::Cursor::new(Vec::new());
+        let mut cf = match bufsize {
+            None => cfb::CompoundFile::create_with_version(cfb::Version::V4, cur),
+            Some(_) => options(false, bufsize).create_with(cur),
+        }
+        .map_err(io_err)?;
         then(&mut cf).map_err(io_err)?;
         cf.flush().map_err(io_err)?;
         Ok(cf.into_inner().into_inner())
